@@ -1041,10 +1041,13 @@ func (r *Replica) applyLTXFile(ctx context.Context, f *os.File, info *ltx.FileIn
 
 // fillFollowGap attempts to bridge a gap in level 0 files by searching
 // higher compaction levels for a file that covers the missing TXID range.
+// The snapshot level is the last resort: once retention has removed the
+// compacted files that followed the follower's position, only a snapshot
+// (which starts at TXID 1) can carry it forward.
 func (r *Replica) fillFollowGap(ctx context.Context, f *os.File, afterTXID ltx.TXID, gapMinTXID ltx.TXID, pageSize uint32) (ltx.TXID, error) {
 	currentTXID := afterTXID
 
-	for level := 1; level < SnapshotLevel; level++ {
+	for level := 1; level <= SnapshotLevel; level++ {
 		itr, err := r.Client.LTXFiles(ctx, level, 0, false)
 		if err != nil {
 			return currentTXID, fmt.Errorf("list level %d ltx files: %w", level, err)
